@@ -33,8 +33,10 @@ type obs struct {
 	IncP   bool     `json:"inc_posix,omitempty"`
 	Bash   int      `json:"bash"` // exit status of bash -n
 	Dash   int      `json:"dash"`
-	Live   bool     `json:"live,omitempty"` // shells run live for this case (else verdicts from the oracle cache)
-	Fails  []failT  `json:"fails,omitempty"`
+	Live   bool     `json:"live,omitempty"`
+	// BashOnly: the program uses bash-only syntax; only the LangBash / bash -n comparison is made
+	BashOnly bool    `json:"bash_only,omitempty"` // shells run live for this case (else verdicts from the oracle cache)
+	Fails    []failT `json:"fails,omitempty"`
 }
 
 type failT struct {
@@ -218,6 +220,22 @@ func structuredCases(seen map[string]bool) []obs {
 	}
 	for _, ts := range m {
 		add(ts, false)
+	}
+	// valid programs around a here-document opener that shares its line with other constructs of the shared core
+	// (no token list: search only); the bash-only constructs of the enumeration (time, let, coproc, select, [[ ]],
+	// (( )), arrays, declare, function, |&) are outside this property's domain and are exercised by C10 only
+	for _, src := range hxgram.HdocPrograms(true) {
+		if !seen[src] {
+			seen[src] = true
+			cases = append(cases, obs{Src: src, Base: true})
+		}
+	}
+	// every valid template inside a command substitution (search only)
+	for _, src := range hxgram.SubstWrapped() {
+		if !seen[src] {
+			seen[src] = true
+			cases = append(cases, obs{Src: src, Base: true})
+		}
 	}
 	// valid arithmetic expansions as the argument of a simple command
 	for _, w := range hxgram.ArithWords() {
